@@ -80,3 +80,88 @@ pub fn forward<N: Num>(x: N, y: N, z: N, k: &Cond) -> Forward<N> {
     let s = N::k(100.0) * (m / q).sqrt_();
     Forward { j, q, c, m, s, a, b }
 }
+
+/// The luminance correlate an inverse-model input carries.
+#[derive(Clone, Copy, Debug)]
+pub enum Lum<N> {
+    J(N),
+    Q(N),
+}
+
+/// The chromatic correlate an inverse-model input carries.
+#[derive(Clone, Copy, Debug)]
+pub enum Chr<N> {
+    C(N),
+    M(N),
+    S(N),
+}
+
+/// Inverse model, Li et al. 2017, Appendix A "inverse", steps 1-5 (X, Y, Z returned on the 0..100 scale), transcribed
+/// independently of palette. `sin_branch` selects the case of step 3 (|sin h| >= |cos h|: b first, then a = b cot h;
+/// otherwise a first, then b = a tan h) - the caller states the case as an assumption, so each case is one obligation.
+/// Transcription choices (same real functions): (J/100)^(1/(c z)) is written (sqrt(J/100))^(2/(c z)); J from Q is
+/// J = 6.25 (c Q / ((A_w + 4) F_L^0.25))^2; C from M is M / F_L^0.25; C from s is (s/100)^2 Q / F_L^0.25 (s = 100 sqrt(M/Q)).
+/// The hue is given in degrees and converted with the double pi/180 (the rounding of that constant is ~1e-17 relative).
+pub fn inverse<N: Num>(lum: Lum<N>, chr: Chr<N>, h_deg: N, k: &Cond, sin_branch: bool) -> [N; 3] {
+    let fl4 = k.f_l.powf(0.25);
+    // step 1: J and C from whichever correlates are given
+    let (j, q) = match lum {
+        Lum::J(j) => (j, N::k(4.0 / k.c) * (j / N::k(100.0)).sqrt_() * N::k((k.a_w + 4.0) * fl4)),
+        Lum::Q(q) => {
+            let r = N::k(k.c) * q / N::k((k.a_w + 4.0) * fl4);
+            (N::k(6.25) * r * r, q)
+        }
+    };
+    let c = match chr {
+        Chr::C(c) => c,
+        Chr::M(m) => m / N::k(fl4),
+        Chr::S(s) => (s / N::k(100.0)) * (s / N::k(100.0)) * q / N::k(fl4),
+    };
+    // step 2: t, e_t, A, p_1, p_2, p_3
+    let jr = (j / N::k(100.0)).sqrt_();
+    let t = (c / (jr * N::k((1.64 - 0.29f64.powf(k.n)).powf(0.73)))).powf_(N::k(1.0 / 0.9));
+    let h = h_deg * N::k(core::f64::consts::PI / 180.0);
+    let e_t = N::k(0.25) * ((h + N::k(2.0)).cos_() + N::k(3.8));
+    let cap_a = N::k(k.a_w) * jr.powf_(N::k(2.0 / (k.c * k.z)));
+    let p1 = N::k(50000.0 / 13.0 * k.n_c * k.n_cb) * e_t / t;
+    let p2 = cap_a / N::k(k.n_bb) + N::k(0.305);
+    let p3 = 21.0 / 20.0;
+    // step 3: a and b
+    let (sin_h, cos_h) = (h.sin_(), h.cos_());
+    let (a, b) = if sin_branch {
+        let p4 = p1 / sin_h;
+        let b = p2 * N::k((2.0 + p3) * 460.0 / 1403.0)
+            / (p4 + N::k((2.0 + p3) * 220.0 / 1403.0) * (cos_h / sin_h) - N::k(27.0 / 1403.0) + N::k(p3 * 6300.0 / 1403.0));
+        (b * (cos_h / sin_h), b)
+    } else {
+        let p5 = p1 / cos_h;
+        let a = p2 * N::k((2.0 + p3) * 460.0 / 1403.0)
+            / (p5 + N::k((2.0 + p3) * 220.0 / 1403.0) - (N::k(27.0 / 1403.0) - N::k(p3 * 6300.0 / 1403.0)) * (sin_h / cos_h));
+        (a, a * (sin_h / cos_h))
+    };
+    // step 4: post-adaptation cone responses
+    let ra = N::k(460.0 / 1403.0) * p2 + N::k(451.0 / 1403.0) * a + N::k(288.0 / 1403.0) * b;
+    let ga = N::k(460.0 / 1403.0) * p2 - N::k(891.0 / 1403.0) * a - N::k(261.0 / 1403.0) * b;
+    let ba = N::k(460.0 / 1403.0) * p2 - N::k(220.0 / 1403.0) * a - N::k(6300.0 / 1403.0) * b;
+    // step 5: undo the compression  R_c = sign(R_a - 0.1) 100/F_L (27.13 |R_a - 0.1| / (400 - |R_a - 0.1|))^(1/0.42)
+    let un = |x: N| {
+        let d = x - N::k(0.1);
+        d.signum_() * N::k(100.0 / k.f_l) * (N::k(27.13) * d.abs_() / (N::k(400.0) - d.abs_())).powf_(N::k(1.0 / 0.42))
+    };
+    // step 6-7: undo the adaptation, cone responses -> XYZ with the inverse of M16 (computed here from M16 in f64)
+    let rgb = [un(ra) / N::k(k.d_rgb[0]), un(ga) / N::k(k.d_rgb[1]), un(ba) / N::k(k.d_rgb[2])];
+    let inv = invert3(M16);
+    let row = |i: usize| N::k(inv[i][0]) * rgb[0] + N::k(inv[i][1]) * rgb[1] + N::k(inv[i][2]) * rgb[2];
+    [row(0), row(1), row(2)]
+}
+
+fn invert3(m: [[f64; 3]; 3]) -> [[f64; 3]; 3] {
+    let det = m[0][0] * (m[1][1] * m[2][2] - m[1][2] * m[2][1]) - m[0][1] * (m[1][0] * m[2][2] - m[1][2] * m[2][0])
+        + m[0][2] * (m[1][0] * m[2][1] - m[1][1] * m[2][0]);
+    let c = |r: usize, s: usize| {
+        let (r1, r2, s1, s2) = ((r + 1) % 3, (r + 2) % 3, (s + 1) % 3, (s + 2) % 3);
+        (m[r1][s1] * m[r2][s2] - m[r1][s2] * m[r2][s1]) / det
+    };
+    // inverse = transposed cofactor matrix / det (cyclic indexing gives the signed cofactors directly)
+    [[c(0, 0), c(1, 0), c(2, 0)], [c(0, 1), c(1, 1), c(2, 1)], [c(0, 2), c(1, 2), c(2, 2)]]
+}
